@@ -745,7 +745,8 @@ register("C01", run_C01, module="Robotools.Props.C01", extra_modules=["Robotools
                                                   "step_amounts", "replay_composition", "amount_well")]
                   + ["Robotools.Amt." + t for t in ("amtOf_amtMerge", "take_amt", "put_amt", "interp_asp_amt", "interp_disp_amt", "asp1", "disp1",
                                                     "ablock_pair", "ablock_compileTransfer", "compile_ablock", "amtOK_ofLabs")]
-                  + ["Robotools.C01D." + t for t in ("replay_volumes_dist", "srcOK_evo", "srcOK_fluent", "compile_safeD")]
+                  + ["Robotools.C01D." + t for t in ("replay_volumes_dist", "replay_volumes_evo", "replay_volumes_fluent", "srcOK_evo", "srcOK_fluent", "compile_safeD")]
+                  + ["Robotools.Dist." + t for t in ("posInj_evo", "posInj_fluent_plate", "posInj_fluent_trough1", "nodup_pos")]
                   + ["Robotools.Dist." + t for t in ("safe_compileDistribute", "interp_rd", "go_spec", "dsts_eq", "addChecked_perm", "exec_ads")]
                   + ["Robotools.RP." + t for t in ("wellOf_pos", "interp_asp", "interp_disp", "asp_core", "disp_core", "compile_safe")],
          rule="generated worklist programs (1-8 ops, 1-3 labware); non-trivial = contains an accepted liquid-moving operation; distinct by canonical JSON")
@@ -758,7 +759,8 @@ register("C02", run_C02, module="Robotools.Props.C02",
 register("C03", run_C03, module="Robotools.Props.C03", extra_modules=["Robotools.Props.C01Dist"],
          theorems=["Robotools.C03." + t for t in ("step_safe", "step_cfg", "step_wf", "abort_safe", "run_safe", "steps_bounded", "prepareAD_oversize", "pair_mem_plan_nosplit", "no_split_rejects")]
                   + ["Robotools.RP." + t for t in ("safe_append", "safe_rm_emit", "safe_ad_emit", "safe_compileTransfer", "compile_safe", "within_compile", "recs_within_exec")]
-                  + ["Robotools.C01D.abort_safe_dist", "Robotools.C01D.step_safeD", "Robotools.Dist.safe_compileDistribute", "Robotools.Dist.compileRD_cases"],
+                  + ["Robotools.C01D.abort_safe_dist", "Robotools.C01D.abort_safe_evo", "Robotools.C01D.abort_safe_fluent", "Robotools.C01D.step_safeD", "Robotools.Dist.safe_compileDistribute", "Robotools.Dist.compileRD_cases",
+                     "Robotools.Dist.posInj_evo", "Robotools.Dist.nodup_pos"],
          rule="worklist programs whose last operation is built to fail at a chosen sub-step; records replayed after every operation")
 register("C04", run_C04, module="Robotools.Props.C04",
          theorems=["Robotools.C04." + t for t in ("micro_shape", "executed_prefix", "executed_all_of_ok", "exec_ledger", "exec_frame",
